@@ -21,7 +21,7 @@ STUB = ["user code (generated)", "stdout (sink)"]
 ASSUMPTIONS = ["dynamic and inline bodies use shapes whose lowering C01 validates; 'no trace' is judged "
                "against a control object of the same class (evaluator-free)"]
 REQUIRED_NONZERO = {"*": ["dyn_calls", "inline_calls", "after_probe_pairs", "during_probes",
-                          "bool_terms", "elem_dyn_calls"]}
+                          "bool_terms", "elem_dyn_calls", "aborted_blocks"]}
 
 
 def budget(tier):
@@ -105,6 +105,11 @@ def generate(seed, tier):
                 inl = progs.strip(go.stmts(fields, 1, lo=1, hi=1)) + inl
             orng.shuffle(inl)
             ops.append({"op": "rw", "p": p, "inline": inl, "dyn": True})
+        elif r < 0.62:
+            # the with-block body raises after writing some constraints: nothing of it may
+            # reach a later call on any object
+            ops.append({"op": "rw", "p": p, "aborted": True,
+                        "inline": progs.strip(go.stmts(fields, 1, lo=1, hi=2)) + [{"t": "raise"}]})
         elif r < 0.75:
             ops.append({"op": "rw", "p": p, "inline": progs.strip(go.stmts(fields, 1, lo=1, hi=2))})
         else:
@@ -172,7 +177,11 @@ def execute(rec):
         p = op["p"]
         pt = w.parties[p]
         inline = op.get("inline")
-        if kind == "rw":
+        aborted = bool(op.get("aborted"))
+        if aborted:
+            stats["aborted_blocks"] = stats.get("aborted_blocks", 0) + 1
+            obs.append((oi, kind, out["st"]))
+        if kind == "rw" and not aborted:
             stats["inline_calls"] += 1
             if op.get("dyn"):
                 stats["dyn_calls"] += 1
@@ -181,18 +190,19 @@ def execute(rec):
                     stats["elem_dyn_calls"] += 1
         else:
             stats["plain_calls"] += 1
-        if out["st"] == "exc":
+        if out["st"] == "exc" and not aborted:
             obs.append((oi, kind, "exc", out.get("exc")))
             viol.append({"inv": "C06.boolean_term" if op.get("dyn") else "C06.not_conjoined",
                          "cls": "C06.exception/%s/%s" % (out.get("exc"), out.get("where")),
                          "detail": {"op": oi, "outcome": out, "inline": inline}})
             break
         tree = w.tree(p)
-        obs.append((oi, kind, out["st"], tree if out["st"] == "ok" else None))
+        if not aborted:
+            obs.append((oi, kind, out["st"], tree if out["st"] == "ok" else None))
         if out["st"] == "solvefail":
             stats["solvefail"] += 1
         # (conjoined / right object / boolean term) result of the call
-        if out["st"] == "ok":
+        if out["st"] == "ok" and not aborted:
             try:
                 fail = refsem.check_tree(P, pt.cname, tree, pt.modes, pt.rangelists, inline)
                 stats["judged"] += 1
@@ -210,7 +220,7 @@ def execute(rec):
         if op.get("dyn"):
             had_dyn = True
         # during-call probes: implementation verdict with the same inline block
-        if kind == "rw" and prng.random() < 0.5:
+        if kind == "rw" and not aborted and prng.random() < 0.5:
             rp, pts = points(p, tree, 3)
             for c in pts:
                 t = refsem.copy_tree(tree)
@@ -235,15 +245,21 @@ def execute(rec):
             if viol:
                 break
         # (one call only) afterwards the object behaves like one that never saw the inline block
-        if kind == "rw" and prng.random() < 0.5:
+        if kind == "rw" and (aborted or prng.random() < 0.5):
+            # (always right after an aborted block: the very next with-block is the probe)
+            if aborted and len(w.parties) > 1 and prng.random() < 0.5:
+                # ... on another object: nothing may leak across objects either
+                p = prng.choice([q for q in range(len(w.parties)) if q != p and w.parties[q].cname == "K0"] or [p])
+                pt = w.parties[p]
             cur = w.tree(p)
+            rp, pts = points(p, cur, 4)
+            # treated object first: constructing the control object is itself library use
+            treated = [w.probe(p, list(zip(rp, c))) for c in pts]
             cw = randworld.World(rec["prog"], tag="_c%d" % oi)
             c_ix = cw.new(pt.cname)
             builder.write_tree(cw.env, pt.cname, cw.parties[c_ix].obj, cur)
-            rp, pts = points(p, cur, 4)
-            for c in pts:
+            for c, a in zip(pts, treated):
                 point = list(zip(rp, c))
-                a = w.probe(p, point)
                 b = cw.probe(c_ix, point)
                 stats["after_probe_pairs"] += 1
                 had_after = True
